@@ -4,7 +4,45 @@ import json, os
 V = os.path.dirname(os.path.dirname(os.path.abspath(__file__)))
 ALL = [f"C{i:02d}" for i in range(1, 21)]
 
+ENGINE_NOTE = ("Lean kernel; axioms propext/Classical.choice/Quot.sound; the engine model (Model/Engine.lean) is hand-written at MIR level after "
+               "ascent_mir.rs/ascent_codegen.rs and tied on every run by compiling generated programs with the real macros (tie B) and diffing against the "
+               "Lean driver and an independent naive least-model oracle; rustc, syn/quote, hash maps (C19), petgraph (validated by validOrder) and the "
+               "evaluation of embedded Rust expressions (theorems hold for every interpretation) are modelled, not verified.")
 CLAIMS = {
+ "C01": dict(
+   engine="tie-B-engine",
+   technique="Lean 4 proof of semi-naive evaluation = least model (all programs, inputs, interpretations, fuels) + compiled-program correspondence (tie B)",
+   text="Lean 4 theorems, kernel-checked for EVERY aggregation-free relational program, every interpretation of its embedded Rust expressions, every input "
+        "database, every valid SCC order and every fuel: if the engine model returns, each relation holds exactly the least model (run_sound, run_complete, "
+        "run_eq_leastModel, run_exit_closed), proved via the version-vector coverage lemma (versionsBase_covers, all n) and SCC/stratum invariants, from any "
+        "well-formed start value. The model is tied to the code on every run: PRNG-generated programs (forced recursion shapes, simple-join special cases, "
+        "size-skewed inputs) are compiled with the real ascent! macro and their relations (with multiplicities) and iteration counts diffed against the model "
+        "and a naive least-model oracle.",
+   design_ref="DESIGN.md §8 C01, §3.1", note=ENGINE_NOTE),
+ "C05": dict(
+   engine="tie-B-engine",
+   technique="Lean 4 invariant proof (rows = previous rows ++ distinct new tuples) + one-winner race theorem + compiled-program multiplicity correspondence",
+   text="Lean 4 theorems: after run() from any well-formed value every row vector is the previous vector followed by pairwise distinct tuples none of which "
+        "was present (rows_set, inputs_kept, rows_count), for all programs/inputs/interpretations; for the parallel head update, exactly one of the workers "
+        "racing on a tuple wins insert_if_not_present in every interleaving of the atomic steps (par_exactly_one_push, from C19). Tied by compiled serial and "
+        "ascent_par! twins of generated programs: row multiplicities of every relation are compared with the model and checked against the input's own "
+        "multiplicities, incl. a many-workers-same-tuple stress program.",
+   design_ref="DESIGN.md §8 C05", note=ENGINE_NOTE + " Partial for the parallel half: shard-lock atomicity is an assumption; real interleavings are exercised, not proved."),
+ "C13": dict(
+   engine="tie-B-engine",
+   technique="Lean 4 restart lemma + idempotence/monotone re-run theorems over histories + compiled-program history correspondence",
+   text="Lean 4 theorems for every aggregation-free serial program and every history run;run and run;push;run from any well-formed value: a second run() appends "
+        "nothing (rerun_idempotent: row vectors literally unchanged) and a re-run after pushing facts into any relations equals the least model of the union "
+        "of all inputs (monotone_rerun, via lfp(lfp I ∪ J) = lfp(I ∪ J)). Tied by driving compiled programs through generated histories of run/push/dump.",
+   design_ref="DESIGN.md §8 C13", note=ENGINE_NOTE + " Programs with aggregation (finding F2) and parallel re-runs (finding F4) are outside the theorems."),
+ "C14": dict(
+   engine="tie-B-engine",
+   technique="Lean 4 theorems over an arbitrary deadline oracle (all crash points, repeated interruptions) + exhaustive crash-point correspondence under a virtual clock",
+   text="Lean 4 theorems for an ARBITRARY deadline oracle over the clock readings: run_timeout=true leaves the full fixed point (timeout_true_complete); "
+        "run_timeout=false leaves only derivable tuples, keeps every input and a well-formed value (timeout_false_sound); after any number of interruptions "
+        "at any points a completing call leaves exactly the least model of the original inputs (resume_complete). Tied by compiled programs with "
+        "#![generate_run_timeout] under the virtual-clock hook, for EVERY crash point k of every case plus repeated interruptions.",
+   design_ref="DESIGN.md §8 C14", note=ENGINE_NOTE + " The wall clock is replaced by the hook (ascent::internal::verif); aggregation inherits finding F2."),
  "C19": dict(
    engine="tie-C-ds",
    technique="Lean 4 refinement theorems (index model -> abstract multimap, all op sequences, all interleavings of atomic steps) + op-sequence correspondence (tie C)",
@@ -66,7 +104,7 @@ def main():
         "version": 1,
         "setup_cmd": "./setup.sh",
         "hooks": {
-            "guard": "cargo feature verif-hooks (crates ascent, ascent_macro, ascent-byods-rels)",
+            "guard": "cargo feature verif-hooks (crates ascent, ascent-byods-rels)",
             "enable": "harness crates depend on /repo by path with features=[\"verif-hooks\"]; cargo test -p ascent_macro --features verif-hooks for the in-process macro driver",
             "baseline_off_cmd": "cd /repo && cargo test --workspace --no-fail-fast --offline",
             "source_commits": HOOK_COMMITS,
@@ -74,6 +112,7 @@ def main():
         },
         "engines": [
             {"name": "lean-model", "path": "lean/", "serves_properties": sorted(CLAIMS), "kind_free_text": "Lean 4 model, specs and theorems (lake project, core Lean; proofs may import single Mathlib modules)"},
+            {"name": "tie-B-engine", "path": "harness/engine", "serves_properties": [p for p in sorted(CLAIMS) if CLAIMS[p]["engine"] == "tie-B-engine"], "kind_free_text": "generated Ascent programs compiled by rustc against /repo (several binaries) + Lean engine driver + naive oracle; outputs diffed"},
             {"name": "tie-C-ds", "path": "harness/ds", "serves_properties": [p for p in sorted(CLAIMS) if CLAIMS[p]["engine"] == "tie-C-ds"], "kind_free_text": "Rust op-sequence harness linking the real ascent crates + Lean driver executable; outputs diffed"},
         ],
         "checks": checks,
@@ -82,6 +121,6 @@ def main():
     }
     json.dump(m, open(os.path.join(V, "MANIFEST.json"), "w"), indent=1)
 
-HOOK_COMMITS = ["a8c1e7a"]
+HOOK_COMMITS = ["a8c1e7a", "86ba386"]
 if __name__ == "__main__":
     main()
